@@ -545,15 +545,17 @@ Proof. vm_compute. split; reflexivity. Qed.
    followed; the condition `the package has a build-script output directory` is an input), regenerated from the source:
    every call is one Model/EnvOrder.v knows ([EnvClassify.of_call]: config [env], OUT_DIR and the build script's
    rustc-env are the user's / the build's; NEXTEST*, __NEXTEST*, CARGO_*, apply_ld_dyld_env are nextest's own), every
-   user / build source comes before every source of nextest's own, and both kinds occur. Moving the OUT_DIR / rustc-env
-   block after apply_package_env falsifies it. The VALUES written stay with C15's differential stage (hook H5). *)
+   user / build source comes before every source of nextest's own, both kinds occur, and the [env] table of the cargo
+   configuration is applied first of all (OUT_DIR and the build script's variables win over it). Moving the OUT_DIR /
+   rustc-env block after apply_package_env, or before the [env] table, falsifies it. The VALUES written stay with C15's differential stage (hook H5). *)
 Theorem C15_source_env_order :
   forall c,
     let sources := map EnvClassify.of_call (G.test_command_env c) in
     MEO.all_classified sources = true /\
     MEO.user_before_nextest sources = true /\
     existsb MEO.is_user sources = true /\
-    existsb (fun s => match s with MEO.SrcNextest => true | _ => false end) sources = true.
+    existsb (fun s => match s with MEO.SrcNextest => true | _ => false end) sources = true /\
+    EnvClassify.first_writer (G.test_command_env c) = Some EnvClassify.config_env_call.
 Proof. exact gen_env_order_is_model. Qed.
 Print Assumptions C15_source_env_order.
 
